@@ -5,6 +5,7 @@ The public entry points are wrapped for the duration of a `with Recorder() as re
 """
 import datetime as _dt
 import functools
+import hashlib
 import inspect
 import os
 
@@ -19,7 +20,10 @@ def cps(s):
 
 
 class Recorder:
-    def __init__(self, ctxdir, helpers):
+    def __init__(self, ctxdir, helpers, inplace=False, max_file=0):
+        self.inplace = inplace        # also copy the file to the path the script asked for (pytest runs read their files back)
+        self.max_file = max_file      # files larger than this many bytes are not handed to TLC (0: no limit)
+        self.skipped = 0
         self.dir = ctxdir
         self.h = helpers              # functions of driver.py (num_abs, dt_utc_fields, be_bytes, hc_flag, Tap, small_int, ...)
         self.events = []
@@ -327,8 +331,12 @@ class Recorder:
         except Exception as e:  # noqa
             frames = []
         ev['frames'] = frames
-        before = [{'id': f'a{i}', 'b': blist(np.ascontiguousarray(a).tobytes())} for i, a in enumerate(arrays)]
-        path = os.path.join(self.dir, f'recorded{self.nwrite}.dlis')      # the script's own target path is not used
+        def image(a):
+            # what TLC compares before and after the write: the bytes, or (large arrays) their SHA-256
+            raw_ = np.ascontiguousarray(a).tobytes()
+            return blist(raw_ if len(raw_) <= 4096 else hashlib.sha256(raw_).digest())
+        before = [{'id': f'a{i}', 'b': image(a)} for i, a in enumerate(arrays)]
+        path = os.path.join(self.dir, f'recorded{self.nwrite}.dlis')      # the script's own target path is not used ...
         tap = h['Tap']()
         h['hooks'].sinks.append(tap)
         self.in_write = True
@@ -338,6 +346,19 @@ class Recorder:
             ev['outcome'] = 'ok'
             with open(path, 'rb') as f:
                 raw = f.read()
+            if self.inplace:              # (the judged bytes are those of the private file: nobody else writes there)
+                try:
+                    with open(fname, 'wb') as f:
+                        f.write(raw)
+                except Exception:  # noqa
+                    pass
+            if self.max_file and len(raw) > self.max_file:
+                ev['op'] = 'write_skipped'                                # too large for TLC: not judged (counted)
+                ev['size'] = len(raw)
+                raw = b''
+                tap.lr, tap.flushes = [], []
+                ev['frames'] = []
+                self.skipped += 1
             ev['file'] = {'bytes': blist(raw), 'total': tap.flushes[-1]['total'] if tap.flushes else -1,
                           'tap': [{'eflr': x['eflr'], 'type': x['type'], 'body': x['body']} for x in tap.lr], 'flushes': tap.flushes}
         except Exception as e:  # noqa
@@ -346,7 +367,7 @@ class Recorder:
         finally:
             self.in_write = False
             h['hooks'].sinks.remove(tap)
-            after = [{'id': f'a{i}', 'b': blist(np.ascontiguousarray(a).tobytes())} for i, a in enumerate(arrays)]
+            after = [{'id': f'a{i}', 'b': image(a)} for i, a in enumerate(arrays)]
             ev['caller'] = {'before': before, 'after': after, 'keys_same': True}
             ev['hc'] = h['hc_flag']()
             self.events.append(ev)
